@@ -130,6 +130,50 @@ package graphql
 //@   at[C20] call resolvePlannedField: assert arg4 != nil && arg4.Prev == path && typeis(arg4.Key, "string") && strval(arg4.Key) == fp.responseKey
 //@   at[C01] call resolvePlannedField: assert fp.fieldDef != nil
 
+// C13: in a root-level mutation selection every resolved field is forced depth first before the
+// next one is resolved (one forcing per resolved field, of exactly the value the field produced).
+//@ func executePlannedSelection
+//@   loop 1 ensures path == nil && eCtx.plan != nil && eCtx.plan.isMutation && calls("resolvePlannedField") > atloop(1, calls("resolvePlannedField")) && ok ==> calls("dethunkValueDepthFirst") == atloop(1, calls("dethunkValueDepthFirst")) + 1
+//@   loop 1 ensures !(path == nil && eCtx.plan != nil && eCtx.plan.isMutation) ==> calls("dethunkValueDepthFirst") == 0
+//@   at[C13] call dethunkValueDepthFirst: assert arg0 == lastresult("resolvePlannedField")
+
+// Forcing: a thunk is called exactly once, the value it produced (not the thunk) is what is
+// descended into and returned.
+//@ func dethunkValueDepthFirst
+//@   props C13 C09
+//@   nosafety
+//@   assigns class:M|string|interface, class:E|interface
+//@   ensures old(typeis(v, "func() interface{}")) ==> calls("f") == 1 && result == lastresult("f")
+//@   ensures !old(typeis(v, "func() interface{}")) ==> calls("f") == 0 && result == old(v)
+//@   ensures typeis(result, "map[string]interface{}") ==> calls("dethunkMapDepthFirst") == 1 && calls("dethunkListDepthFirst") == 0
+//@   ensures typeis(result, "[]interface{}") ==> calls("dethunkListDepthFirst") == 1 && calls("dethunkMapDepthFirst") == 0
+//@   at call dethunkMapDepthFirst: assert typeis(v, "map[string]interface{}") && arg0 == as(v, "map[string]interface{}")
+//@   at call dethunkListDepthFirst: assert typeis(v, "[]interface{}") && arg0 == as(v, "[]interface{}")
+
+//@ func dethunkMapDepthFirst
+//@   props C13 C09
+//@   nosafety
+//@   assigns class:M|string|interface, class:E|interface
+//@   loop 1 ensures calls("f") <= atloop(1, calls("f")) + 1
+//@   loop 1 ensures calls("f") > atloop(1, calls("f")) && typeis(lastresult("f"), "map[string]interface{}") ==> calls("dethunkMapDepthFirst") == atloop(1, calls("dethunkMapDepthFirst")) + 1
+//@   loop 1 ensures calls("f") > atloop(1, calls("f")) && typeis(lastresult("f"), "[]interface{}") ==> calls("dethunkListDepthFirst") == atloop(1, calls("dethunkListDepthFirst")) + 1
+//@   at call dethunkMapDepthFirst: assert calls("f") > atloop(1, calls("f")) ==> arg0 == as(lastresult("f"), "map[string]interface{}")
+//@   at call dethunkListDepthFirst: assert calls("f") > atloop(1, calls("f")) ==> arg0 == as(lastresult("f"), "[]interface{}")
+//@   at call dethunkMapDepthFirst: assert calls("f") == atloop(1, calls("f")) ==> arg0 == as(v, "map[string]interface{}")
+//@   at call dethunkListDepthFirst: assert calls("f") == atloop(1, calls("f")) ==> arg0 == as(v, "[]interface{}")
+
+//@ func dethunkListDepthFirst
+//@   props C13 C09
+//@   nosafety
+//@   assigns class:M|string|interface, class:E|interface
+//@   loop 1 ensures calls("f") <= atloop(1, calls("f")) + 1
+//@   loop 1 ensures calls("f") > atloop(1, calls("f")) && typeis(lastresult("f"), "map[string]interface{}") ==> calls("dethunkMapDepthFirst") == atloop(1, calls("dethunkMapDepthFirst")) + 1
+//@   loop 1 ensures calls("f") > atloop(1, calls("f")) && typeis(lastresult("f"), "[]interface{}") ==> calls("dethunkListDepthFirst") == atloop(1, calls("dethunkListDepthFirst")) + 1
+//@   at call dethunkMapDepthFirst: assert calls("f") > atloop(1, calls("f")) ==> arg0 == as(lastresult("f"), "map[string]interface{}")
+//@   at call dethunkListDepthFirst: assert calls("f") > atloop(1, calls("f")) ==> arg0 == as(lastresult("f"), "[]interface{}")
+//@   at call dethunkMapDepthFirst: assert calls("f") == atloop(1, calls("f")) ==> arg0 == as(v, "map[string]interface{}")
+//@   at call dethunkListDepthFirst: assert calls("f") == atloop(1, calls("f")) ==> arg0 == as(v, "[]interface{}")
+
 //@ func Schema.PossibleTypes
 //@   trusted
 //@   assigns nothing
@@ -613,8 +657,6 @@ package graphql
 
 // ---- mutations force deferred values depth-first; queries breadth-first (C13) ----
 
-//@ func dethunkMapDepthFirst
-//@   trusted
 //@ func dethunkMapWithBreadthFirstTraversal
 //@   trusted
 //@ func getVariableValues
